@@ -65,7 +65,7 @@ Inductive cspec :=
 
 Inductive cop :=
 | CPlain (o : op) (pipeline : option bool)      (* a START says which process model follows: Some true = pm_pipeline *)
-| CConc (progs : list (list cspec)).
+| CConc (progs : list (list cspec)) (inbound : list bytes).    (* inbound: what the counterparty streams in meanwhile *)
 
 Definition k_CONC : bytes := [67;79;78;67].
 Definition k_START : bytes := [83;84;65;82;84].
@@ -101,7 +101,11 @@ Definition parse_call (t0 : bytes) : cspec :=
   | _ => SBad
   end.
 
-Definition is_opt (t : bytes) : bool := has_prefix [121;61] t || has_prefix [116;105;99;107;61] t.   (* y=  tick= *)
+Definition is_opt (t : bytes) : bool := has_prefix [121;61] t || has_prefix [116;105;99;107;61] t || has_prefix [105;110;61] t.   (* y=  tick=  in= *)
+Definition inbound_of (args : list bytes) : list bytes :=
+  flat_map (fun t => if has_prefix [105;110;61] t
+                     then map unhex (filter (fun h => match h with [] => false | _ => true end) (fsplit 44 (skipn 3 t)))
+                     else []) args.
 
 Definition parse_prog (t : bytes) : list cspec :=
   if beq t [45] then [] else map parse_call (fsplit 43 t).
@@ -109,7 +113,7 @@ Definition parse_prog (t : bytes) : list cspec :=
 Definition parse_cop (l : bytes) : cop :=
   match fwords l with
   | name :: args =>
-    if beq name k_CONC then CConc (map parse_prog (filter (fun t => negb (is_opt t)) args))
+    if beq name k_CONC then CConc (map parse_prog (filter (fun t => negb (is_opt t)) args)) (inbound_of args)
     else if beq name k_START then CPlain (parse_op l) (Some (existsb (beq k_pm_pipeline) args))
     else if beq name [83;69;78;68] then                            (* SEND: Wire.parse_op's reading, linear *)
       CPlain (match args with a :: _ => OSend (fparse_spec a) | _ => OBad end) None
